@@ -81,7 +81,24 @@ def run(ctx):
             okk, why = result_inspected(dpv, b)
             rep.check(okk, "C20.R2", "disk:io-result-propagated@%s" % dpv.block_line(b), why, "I/O result dropped", site=dpv.loc())
     writers = sorted({f.id for f in prog.fns.values() if f.crate == "echo_cas" and f.call_sites(r"std::fs::(write|rename|copy)$|File.*::create$|OpenOptions")})
-    rep.check(writers == [CAS + "disk::DiskTier::put_verified"], "C20.R2", "disk:single-writer", "only put_verified writes blob files", "blob files are written by %s" % writers, site=CAS + "disk")
+    # helpers that only put_verified (or another such helper) calls are part of put_verified
+    pvid = CAS + "disk::DiskTier::put_verified"
+    callers = {}
+    for f_ in prog.fns.values():
+        if f_.crate == "echo_cas":
+            for y_ in prog.callees(f_.id)[0]:
+                callers.setdefault(y_, set()).add(f_.id)
+    allowed = {pvid}
+    changed_ = True
+    while changed_:
+        changed_ = False
+        for w_ in writers:
+            if w_ not in allowed and callers.get(w_) and all(c_ in allowed for c_ in callers[w_]):
+                allowed.add(w_)
+                changed_ = True
+    stray = [w_ for w_ in writers if w_ not in allowed]
+    rep.check(pvid in allowed and (pvid in writers or len(allowed) > 1) and not stray, "C20.R2", "disk:single-writer", "only put_verified (and helpers only it calls) writes blob files",
+              "blob files are written by %s" % stray, site=CAS + "disk")
 
     # ---- R3
     for tier_adt, pin_fns in ((CAS + "disk::DiskTier", [CAS + "disk::DiskTier::pin", CAS + "disk::DiskTier::unpin"]),
